@@ -16,14 +16,17 @@ R4 ownership (whole program, P8): `token_list` / `queues` are mutated only by
    `Port.put/_init_consumer/get` (a foreign `get` would steal a token, a foreign `put` duplicate one).
 R5 `FilterTokenPort.put` forwards through `super().put(token)` exactly once iff
    `isinstance(token, TerminationToken) or self.filter_function(token)` (P10 over the CFG paths); the default
-   filter admits every token.
+   filter admits every token.  The class test that exempts tokens from the filter names TerminationToken (or a
+   subclass) only: `isinstance(token, (IterationTerminationToken, TerminationToken))` still "contains" the
+   termination test but lets a further token kind bypass filter_function.
 R6 `InterWorkflowPort`: `put` sends a termination token straight to `super().put`; any other token
    visits *every* boundary: `remove_tag(token.tag)`, then the boundary action iff `is_satisfied()`;
    local delivery happens iff no satisfied boundary targets `self` (path enumeration with the loop
    unrolled twice).  `_execute_boundary_action` propagates before it terminates and never calls
    `self.put` for a boundary on itself; `add_inter_port` copies the tag list, registers the
    boundary and replays the already present non-termination tokens in order through the same
-   sequence; `BoundaryRule.is_satisfied` <=> no tag left; `remove_tag` removes the given tag.
+   sequence; `BoundaryRule.is_satisfied` <=> no tag left; `remove_tag` removes the given tag.  As in R5, the
+   termination tests of `put` / `add_inter_port` may not be widened to further token classes.
 
 All rules of DESIGN section 3 (C03.R1-R6) are implemented.  Not armed: the order "register the rule, then replay"
 inside add_inter_port (either order is behaviour-preserving: Port.put does not consult the boundaries),
@@ -47,6 +50,7 @@ from ._util_B import (
     branch_succ,
     calls_in,
     class_test,
+    class_test_extras,
     explore,
     is_len_of,
     is_name,
@@ -119,6 +123,30 @@ def _exactly_once(g, ids: list[int]) -> tuple[bool, str]:
 def _must_pass(g, ids: list[int]) -> tuple[bool, str]:
     w = g.escape(g.entry, ids)
     return (True, "") if w is None else (False, "a path avoids the loop: " + " -> ".join(g.describe(w)))
+
+
+def _exempt_only_termination(ctx, rule: str, f, label: str, consequence: str) -> None:
+    """Every class test of `f` that the path enumeration reads as the atom
+    "token is a TerminationToken" (`termination_subject`) names TerminationToken (or a subclass)
+    *only*.  `isinstance(token, (IterationTerminationToken, TerminationToken))` still contains
+    TerminationToken -- so the atom is recognised and the truth tables look unchanged -- but it
+    exempts a wider set of tokens from the filter / boundary rules.  One obligation per test."""
+    p = ctx.prog
+    tests = [c for c in calls_in(f.node) if termination_subject(p, f, c) is not None]
+    for i, c in enumerate(tests):
+        extras = class_test_extras(p, f, c, TERMINATION_TOKEN)
+        ctx.ob(
+            rule,
+            f"{label}: the termination exemption tests TerminationToken only",
+            not extras,
+            func=f,
+            node=c,
+            instance=f"{label}:exempt-class:{i}" if len(tests) > 1 else f"{label}:exempt-class",
+            message=(
+                f"{f.qualname}: `{unparse(c)}` also holds for {', '.join(extras)} tokens, which are not "
+                f"termination tokens: {consequence}"
+            ),
+        )
 
 
 # --------------------------------------------------------------------------- R1
@@ -582,7 +610,8 @@ def r5(ctx):
                 f"forwards the token {sorted(got)} times (expected {want})"
             ),
         )
-
+    # A is "token is a TerminationToken", not a wider class test that merely contains TerminationToken
+    _exempt_only_termination(ctx, "R5", f, "filter.put", "they are delivered although filter_function rejects them")
 
     # the default filter admits every token
     init = p.func(f"{FILTER}.__init__")
@@ -703,6 +732,8 @@ def r6(ctx):
                 [(int(bool(s)), int(bool(pp))) for s, pp in key[1]])
             ctx.ob("R6", f"InterWorkflowPort.put, {label}", not err, func=f, node=f.node, instance=f"inter.put:{label}",
                    message=f"InterWorkflowPort.put, {label}: {err}")
+
+    _exempt_only_termination(ctx, "R6", f, "inter.put", "they are delivered locally without visiting the boundary rules")
 
     # ---- _execute_boundary_action
     f = p.func(f"{INTER}._execute_boundary_action")
@@ -827,6 +858,8 @@ def r6(ctx):
             ctx.ob("R6", f"add_inter_port, {label}", not err, func=f, node=lp, instance=f"add_inter_port:{label}",
                    message=f"add_inter_port, {label}: {err}")
 
+    _exempt_only_termination(ctx, "R6", f, "add_inter_port", "tokens of that kind already on the port are never replayed to the new boundary")
+
     # ---- BoundaryRule
     f = p.func(f"{RULE}.is_satisfied")
     rets = [n for n in f.body_nodes() if isinstance(n, ast.Return)]
@@ -949,7 +982,7 @@ def _replay_iter(p, f, it: ast.AST) -> str | None:
 
 RULES = [("R1", r1), ("R2", r2), ("R3", r3), ("R4", r4), ("R5", r5), ("R6", r6)]
 # R4: 27 access sites today (12 of them reads outside Port); R6: 15 put + 5 action + 11 add_inter_port + 2 BoundaryRule
-FLOORS = {"R1": 5, "R2": 4, "R3": 3, "R4": 20, "R5": 5, "R6": 16}
+FLOORS = {"R1": 5, "R2": 4, "R3": 3, "R4": 20, "R5": 6, "R6": 18}
 
 _PUT = f"{PORT}.put"
 _INIT = f"{PORT}._init_consumer"
